@@ -285,6 +285,16 @@ func cmpHistory(m *Sim, oracle, who string, got []rmsg, want []string) {
 }
 
 func propC08(j *Job) {
+	// Shutdown while four writers on four streams are blocked in blocking-write mode (program of
+	// C20): all of them are released, the call returns and both sides close
+	{
+		mode := stdModes()[0]
+		a := withBase(mode.A, 228, 0xFFFFFFFE, 4000)
+		a.BlockWrite = true
+		b := withBase(mode.B, 228, 0xFFFFFFF0, 4000)
+		b.RecvBuf = 1500
+		j.Explore("CB/"+mode.Name+"/W1b+Wxb+Wyb+Wzb+Xh", concScenario(&concSpec{A: a, B: b, prog: "W1b Wxb Wyb Wzb Xh", yield: true}), Budget{}, nil)
+	}
 	modes := stdModes()
 	faults := faultSet{Drop: true, Dup: true, Late: true, Swap: true}
 	for mi, mode := range modes {
